@@ -67,7 +67,7 @@ def main(argv):
     for part in prop['parts']:
         if tier == 'quick' and part.get('tier') == 'thorough':
             continue
-        if only and not part['name'].startswith(only):
+        if only and not any(part['name'].startswith(o) for o in only.split(',')):
             continue
         r = part['run'](part, tier, workdir, seed)
         r['part'] = part['name']
@@ -192,12 +192,15 @@ def do_replay(pid, path):
         print('cannot read replay file: %s' % e)
         return 2
     print(json.dumps(d, indent=1)[:6000])
-    prop = registry.PROPS[pid]
-    rp = prop.get('replay')
-    if rp:
-        return rp(d)
-    print('no native replay driver for %s: re-run `./check %s` to re-check the named obligations' % (pid, pid))
-    return 0
+    # replay = re-check, on the current tree, exactly the parts whose obligations are named in the replay file
+    # (native parts re-run the recorded input class on the real code; Verus / Kani parts re-discharge the obligation)
+    parts = sorted(set(f.get('part') for f in d.get('failed_obligations', []) if f.get('part')))
+    if not parts:
+        print('replay file names no part')
+        return 2
+    print('replaying parts: %s' % ', '.join(parts))
+    os.environ['VERIF_ONLY_PARTS'] = ','.join(parts)
+    return main([sys.argv[0], pid, '--tier', d.get('tier', 'quick')])
 
 
 if __name__ == '__main__':
